@@ -28,7 +28,8 @@ Init == /\ q = <<>> /\ produced = 0 /\ prod = "run" /\ loopDone = FALSE /\ abort
 Put == /\ prod = "run" /\ ~abort /\ produced < K /\ Len(q) < QCap
        /\ q' = Append(q, produced + 1) /\ produced' = produced + 1
        /\ UNCHANGED <<prod, loopDone, abort, w, free, inflight, stored, done, gather, committed, faults>>
-ProdReturn == /\ prod = "run" /\ (produced = K \/ abort) /\ prod' = "returned"
+\* mutant abortUnseenWhenFull: the abort flag is only looked at before a chunk is produced, never while waiting for room in the queue
+ProdReturn == /\ prod = "run" /\ (produced = K \/ (abort /\ (Mutant # "abortUnseenWhenFull" \/ Len(q) < QCap))) /\ prod' = "returned"
               /\ UNCHANGED <<q, produced, loopDone, abort, w, free, inflight, stored, done, gather, committed, faults>>
 \* ---- event loop: the future's done-callback runs as its own loop step
 LoopSeesDone == /\ prod = "returned" /\ ~loopDone /\ loopDone' = TRUE
